@@ -360,6 +360,10 @@ pub fn start_job(command: Arc<Command>) -> (Job, JoinHandle<()>) {
 						}
 					}
 				}
+				else => {
+					trace!("all job handles dropped and nothing running, ending");
+					break 'main;
+				}
 				}
 			}
 
